@@ -1,5 +1,5 @@
 (* C20 — the vetted inventory of panic sites and self-recursive functions of the parser modules *)
-From Coq Require Import List. Import ListNotations.
+From Coq Require Import List Bool Arith. Import ListNotations. Open Scope bool_scope.
 (* ---------- the inventory of panic sites in the parser modules (regenerated from /repo on every run) ---------- *)
 From Rws Require Import GenPanicSites.
 From Coq Require Import String.
@@ -40,8 +40,19 @@ Definition vetted : list (string * nat * reason) := [
   ("url/path::build", 2%nat, Model)                                     (* build_total *)
 ]%string.
 Definition legacy_recursive : list string := ["response::_parse_raw_response_via_cursor"; "range::_parse_multipart_body"]%string.
-Lemma panic_sites_vetted : panic_sites = map fst vetted.
+(* every function with panic sites is in the vetted table with at least as many sites (a site or a function that disappears needs no vetting) *)
+Definition site_ok (fn : string * nat) : bool :=
+  existsb (fun v => String.eqb (fst (fst v)) (fst fn) && Nat.leb (snd fn) (snd (fst v))) vetted.
+Lemma panic_sites_vetted : forallb site_ok panic_sites = true.
 Proof. vm_compute. reflexivity. Qed.
-Lemma recursion_vetted : self_recursive = legacy_recursive.
+(* at the pinned commit the inventory is exactly the table (the table holds nothing stale) *)
+Example panic_sites_exact : panic_sites = map fst vetted.
 Proof. vm_compute. reflexivity. Qed.
-
+(* no checked function calls an unwrapping twin that the table marks as legacy: what "Legacy" claims *)
+Definition is_legacy (k : string) : bool :=
+  existsb (fun v => String.eqb (fst (fst v)) k && match snd v with Legacy => true | _ => false end) vetted.
+Lemma no_legacy_twin_called : forallb (fun c => negb (is_legacy (snd c))) twin_calls = true.
+Proof. vm_compute. reflexivity. Qed.
+(* a new self-recursive function has to be looked at; one that disappears does not *)
+Lemma recursion_vetted : forallb (fun f => existsb (String.eqb f) legacy_recursive) self_recursive = true.
+Proof. vm_compute. reflexivity. Qed.
